@@ -160,6 +160,9 @@ class CI(SymInterp):
     def _rec(self, i, a):
         # a recursive classification of a member type at an offset: recorded, and (for symbols) marks nothing itself
         self.rec.append((a[0], a[2]))
+        if isinstance(a[0], Variant) and a[0].last != "TySym" and getattr(self, "follow", False):
+            names = self.inner.param_names()
+            self.run_fn(self.inner, {names[0]: a[0], names[1]: a[1], names[2]: a[2]})
         return None
 
     def eval(self, e, env):
@@ -226,6 +229,28 @@ def r19b(ctx, run):
     expect_rec("struct {a @0, b @12}", "aggregate:struct", st, 8, [(A, 8), (B, 20)], {}, struct_offsets={repr(st): [0, 12]})
     ar = Variant("Ty::ConcreteArray", {"size": 3, "sub_ty": A, "uid": 1})
     expect_rec("[3]a with stride 12", "aggregate:array", ar, 0, [(A, 0), (A, 12), (A, 24)], {}, strides={repr(A): 12})
+    # small elements, array starting in the middle of an eightbyte: every eightbyte the array reaches gets the class of the elements in it (an
+    # element that lands in the next eightbyte decides that eightbyte's class).  Concrete element kinds, recursion followed, final classes compared
+    f32, u8, f64 = Variant("Ty::Float", {"0": 32}), Variant("Ty::UInt", {"0": 8}), Variant("Ty::Float", {"0": 64})
+    for desc, key, elem, esize, count, base, ecls in (
+            ("[4]f32 at offset 4", "aggregate:array-mid-eightbyte", f32, 4, 4, 4, "Sse"), ("[8]u8 at offset 1", "aggregate:array-bytes-mid-eightbyte", u8, 1, 8, 1, "Int"),
+            ("[2]f64 at offset 8", "aggregate:array-words", f64, 8, 2, 8, "Sse"), ("[3]f32 at offset 0", "aggregate:array-from-boundary", f32, 4, 3, 0, "Sse"),
+            ("[2]f32 at offset 12", "aggregate:array-last-half", f32, 4, 2, 12, "Sse")):
+        ty = Variant("Ty::ConcreteArray", {"size": count, "sub_ty": elem, "uid": 9})
+        it = CI(ctx, {repr(elem): esize, repr(ty): esize * count}, strides={repr(elem): esize})
+        it.follow = True
+        try:
+            got = it.classify(ty, base)
+        except (Panic, CannotEstablish) as c:
+            run.finding(F, key, inner.file, inner.ln, "cannot establish the classification of %s: %s" % (desc, getattr(c, "what", c)))
+            continue
+        want = {}
+        for i_ in range(count):
+            want[(base + i_ * esize) // 8] = ecls
+        marks = {i_: c for i_, c in enumerate(got) if c != "NoClass"}
+        run.check(marks == want, inner.site(), "%s: eightbytes %s" % (desc, marks), F, key, inner.file, inner.ln,
+                  "%s is classified %s; System V gives %s (every eightbyte that holds an element has the elements' class): a struct with such a field is passed in the wrong "
+                  "registers, or an eightbyte is not passed at all" % (desc, marks, want))
     en = Variant("Ty::Enum", {"uid": 1, "variants": [A, B]})
     expect_rec("enum {a | b} with tag at 12", "aggregate:enum", en, 0, [(A, 0), (B, 0)], {1: "Int"}, enum_discr={repr(en): 12})
     eu = Variant("Ty::ErrorUnion", {"error_ty": A, "payload_ty": B})
